@@ -212,11 +212,132 @@ theorem anti_hv (n0 n1 x y x' y' : Nat) (h : HOk n0 n1 x y) (h' : VOk n0 n1 x' y
   simp only [i1, i2, hc]
   clear i1 i2 hc
   apply bxor3'
-  · rintro ⟨rfl | rfl, rfl | rfl⟩ <;>
-      rcases Nat.mod_two_eq_zero_or_one x' with px' | px' <;> rcases Nat.mod_two_eq_zero_or_one y with py | py <;>
-      simp [Nat.add_mod, px', py] <;> omega
+  · rintro ⟨hxx, hyy⟩
+    rcases Nat.mod_two_eq_zero_or_one x' with px' | px' <;> rcases Nat.mod_two_eq_zero_or_one y with py | py <;>
+      rcases hxx with e | e <;> rcases hyy with e' | e' <;> subst x <;> subst y' <;>
+      simp [Nat.add_mod, px', py]
   · omega
   · omega
   · omega
+
+theorem anti_vh (n0 n1 x y x' y' : Nat) (h : VOk n0 n1 x y) (h' : HOk n0 n1 x' y') :
+    anti (vBody n0 n1 x y) (hBody n0 n1 x' y') = decide ((x' = x ∨ x' = x + 1) ∧ (y = y' ∨ y = y' + 1)) := by
+  rw [anti_symm, anti_hv n0 n1 x' y' x y h' h]
+
+theorem anti_h_vertex (n0 n1 x y a b : Nat) (h : HOk n0 n1 x y) (ha : a < n0) (hb : b < n1) :
+    anti (hBody n0 n1 x y) (vertexStr n0 n1 a b) = decide (a = x ∧ (b = y ∨ b = y + 1)) := by
+  obtain ⟨hx, hy⟩ := h
+  unfold hBody
+  rw [anti_xy_vertex n0 n1 (n0 * n1) _ _ _ _ a b (by rw [Ne, vIdx_inj (by omega) (by omega)]; omega)
+    (vIdx_lt hx (by omega)) (vIdx_lt hx (by omega)) (nverts_le _ _) (vIdx_lt ha hb) (fun f y h => auxOf_ok h)]
+  have i1 := vIdx_inj (n1 := n1) (x := x) (y := y + 1 - x % 2) (x' := a) (y' := b) (by omega) hb
+  have i2 := vIdx_inj (n1 := n1) (x := x) (y := y + x % 2) (x' := a) (y' := b) (by omega) hb
+  simp only [i1, i2]
+  have := bxor2 (x = a ∧ y + 1 - x % 2 = b) (x = a ∧ y + x % 2 = b) (a = x ∧ (b = y ∨ b = y + 1)) (by omega)
+  simpa using this
+
+theorem anti_v_vertex (n0 n1 x y a b : Nat) (h : VOk n0 n1 x y) (ha : a < n0) (hb : b < n1) :
+    anti (vBody n0 n1 x y) (vertexStr n0 n1 a b) = decide (b = y ∧ (a = x ∨ a = x + 1)) := by
+  obtain ⟨hx, hy⟩ := h
+  unfold vBody
+  rw [anti_xy_vertex n0 n1 (n0 * n1) _ _ _ _ a b (by rw [Ne, vIdx_inj (by omega) (by omega)]; omega)
+    (vIdx_lt (by omega) hy) (vIdx_lt (by omega) hy) (nverts_le _ _) (vIdx_lt ha hb) (fun f y h => auxOf_ok h)]
+  have i1 := vIdx_inj (n1 := n1) (x := x + 1 - y % 2) (y := y) (x' := a) (y' := b) hy hb
+  have i2 := vIdx_inj (n1 := n1) (x := x + y % 2) (y := y) (x' := a) (y' := b) hy hb
+  simp only [i1, i2]
+  have := bxor2 (x + 1 - y % 2 = a ∧ y = b) (x + y % 2 = a ∧ y = b) (b = y ∧ (a = x ∨ a = x + 1)) (by omega)
+  simpa using this
+
+/-! ### oriented edges -/
+
+/-- nearest neighbours, as the code tests it -/
+def NN (ix iy jx jy : Nat) : Prop := (ix = jx ∧ (iy + 1 = jy ∨ jy + 1 = iy)) ∨ (iy = jy ∧ (ix + 1 = jx ∨ jx + 1 = ix))
+
+/-- a nearest-neighbour pair of vertices inside the `n0 × n1` rectangle -/
+def EdgeOk (n0 n1 ix iy jx jy : Nat) : Prop := ix < n0 ∧ iy < n1 ∧ jx < n0 ∧ jy < n1 ∧ NN ix iy jx jy
+
+instance (n0 n1 ix iy jx jy : Nat) : Decidable (EdgeOk n0 n1 ix iy jx jy) := by unfold EdgeOk NN; infer_instance
+
+/-- the letters of the edge, without the orientation sign -/
+def bodyOf (n0 n1 ix iy jx jy : Nat) : PS :=
+  if ix = jx then hBody n0 n1 ix (min iy jy) else vBody n0 n1 (min ix jx) iy
+
+theorem edgeStr_body (n0 n1 ix iy jx jy : Nat) (h : EdgeOk n0 n1 ix iy jx jy) :
+    edgeStr n0 n1 ix iy jx jy = bodyOf n0 n1 ix iy jx jy ∨ edgeStr n0 n1 ix iy jx jy = neg (bodyOf n0 n1 ix iy jx jy) := by
+  obtain ⟨-, -, -, -, hnn⟩ := h
+  unfold bodyOf
+  rcases hnn with ⟨rfl, rfl | rfl⟩ | ⟨rfl, rfl | rfl⟩
+  · have hm : min iy (iy + 1) = iy := by omega
+    rw [edgeStr_right, if_pos rfl, hm]; split <;> simp
+  · have hm : min (jy + 1) jy = jy := by omega
+    rw [edgeStr_left, if_pos rfl, hm]; split <;> simp
+  · have hm : min ix (ix + 1) = ix := by omega
+    have hne : ¬ ix = ix + 1 := by omega
+    rw [edgeStr_down, if_neg hne, hm]; simp
+  · have hm : min (jx + 1) jx = jx := by omega
+    have hne : ¬ jx + 1 = jx := by omega
+    rw [edgeStr_up, if_neg hne, hm]; simp
+
+theorem anti_neg_left (P R : PS) : anti (neg P) R = anti P R := anti_q_irrel_left _ _ _ _ _
+theorem anti_neg_right (P R : PS) : anti P (neg R) = anti P R := by
+  rw [anti_symm, anti_neg_left, anti_symm]
+
+/-- two edges share exactly one vertex: some endpoint in common, and not the same pair of endpoints -/
+def ShareOne (ix iy jx jy kx ky lx ly : Nat) : Prop :=
+  ((ix = kx ∧ iy = ky) ∨ (ix = lx ∧ iy = ly) ∨ (jx = kx ∧ jy = ky) ∨ (jx = lx ∧ jy = ly)) ∧
+  ¬ (((ix = kx ∧ iy = ky) ∧ (jx = lx ∧ jy = ly)) ∨ ((ix = lx ∧ iy = ly) ∧ (jx = kx ∧ jy = ky)))
+
+instance (ix iy jx jy kx ky lx ly : Nat) : Decidable (ShareOne ix iy jx jy kx ky lx ly) := by
+  unfold ShareOne; infer_instance
+
+theorem bodyOf_right (n0 n1 x y : Nat) : bodyOf n0 n1 x y x (y + 1) = hBody n0 n1 x y := by
+  have hm : min y (y + 1) = y := by omega
+  rw [bodyOf, if_pos rfl, hm]
+theorem bodyOf_left (n0 n1 x y : Nat) : bodyOf n0 n1 x (y + 1) x y = hBody n0 n1 x y := by
+  have hm : min (y + 1) y = y := by omega
+  rw [bodyOf, if_pos rfl, hm]
+theorem bodyOf_down (n0 n1 x y : Nat) : bodyOf n0 n1 x y (x + 1) y = vBody n0 n1 x y := by
+  have hm : min x (x + 1) = x := by omega
+  rw [bodyOf, if_neg (by omega), hm]
+theorem bodyOf_up (n0 n1 x y : Nat) : bodyOf n0 n1 (x + 1) y x y = vBody n0 n1 x y := by
+  have hm : min (x + 1) x = x := by omega
+  rw [bodyOf, if_neg (by omega), hm]
+
+theorem anti_body_body (n0 n1 ix iy jx jy kx ky lx ly : Nat)
+    (h : EdgeOk n0 n1 ix iy jx jy) (h' : EdgeOk n0 n1 kx ky lx ly) :
+    anti (bodyOf n0 n1 ix iy jx jy) (bodyOf n0 n1 kx ky lx ly) = decide (ShareOne ix iy jx jy kx ky lx ly) := by
+  obtain ⟨h1, h2, h3, h4, hnn⟩ := h
+  obtain ⟨h1', h2', h3', h4', hnn'⟩ := h'
+  unfold ShareOne
+  rcases hnn with ⟨e1, e2 | e2⟩ | ⟨e1, e2 | e2⟩ <;> rcases hnn' with ⟨e1', e2' | e2'⟩ | ⟨e1', e2' | e2'⟩ <;>
+    subst e1 <;> subst e2 <;> subst e1' <;> subst e2' <;>
+    simp only [bodyOf_right, bodyOf_left, bodyOf_down, bodyOf_up] <;>
+    first
+    | (rw [anti_hh _ _ _ _ _ _ ⟨by omega, by omega⟩ ⟨by omega, by omega⟩]; apply decide_eq_decide.mpr; omega)
+    | (rw [anti_hv _ _ _ _ _ _ ⟨by omega, by omega⟩ ⟨by omega, by omega⟩]; apply decide_eq_decide.mpr; omega)
+    | (rw [anti_vh _ _ _ _ _ _ ⟨by omega, by omega⟩ ⟨by omega, by omega⟩]; apply decide_eq_decide.mpr; omega)
+    | (rw [anti_vv _ _ _ _ _ _ ⟨by omega, by omega⟩ ⟨by omega, by omega⟩]; apply decide_eq_decide.mpr; omega)
+
+/-- **edge/edge relation**: two edge operators anticommute iff the edges share exactly one vertex -/
+theorem anti_edge_edge (n0 n1 ix iy jx jy kx ky lx ly : Nat)
+    (h : EdgeOk n0 n1 ix iy jx jy) (h' : EdgeOk n0 n1 kx ky lx ly) :
+    anti (edgeStr n0 n1 ix iy jx jy) (edgeStr n0 n1 kx ky lx ly) = decide (ShareOne ix iy jx jy kx ky lx ly) := by
+  rcases edgeStr_body n0 n1 ix iy jx jy h with e | e <;> rcases edgeStr_body n0 n1 kx ky lx ly h' with e' | e' <;>
+    rw [e, e'] <;> (try simp only [anti_neg_left, anti_neg_right]) <;> exact anti_body_body _ _ _ _ _ _ _ _ _ _ h h'
+
+/-- **edge/vertex relation**: an edge operator anticommutes with the vertex operators of its two endpoints and commutes
+with all others -/
+theorem anti_edge_vertex (n0 n1 ix iy jx jy a b : Nat) (h : EdgeOk n0 n1 ix iy jx jy) (ha : a < n0) (hb : b < n1) :
+    anti (edgeStr n0 n1 ix iy jx jy) (vertexStr n0 n1 a b) = decide ((a = ix ∧ b = iy) ∨ (a = jx ∧ b = jy)) := by
+  have hb' : anti (bodyOf n0 n1 ix iy jx jy) (vertexStr n0 n1 a b) = decide ((a = ix ∧ b = iy) ∨ (a = jx ∧ b = jy)) := by
+    obtain ⟨h1, h2, h3, h4, hnn⟩ := h
+    unfold bodyOf
+    unfold NN at hnn
+    by_cases e : ix = jx
+    · rw [if_pos e, anti_h_vertex _ _ _ _ _ _ ⟨h1, by omega⟩ ha hb]
+      apply decide_eq_decide.mpr; omega
+    · rw [if_neg e, anti_v_vertex _ _ _ _ _ _ ⟨by omega, h2⟩ ha hb]
+      apply decide_eq_decide.mpr; omega
+  rcases edgeStr_body n0 n1 ix iy jx jy h with e | e <;> rw [e] <;> (try simp only [anti_neg_left]) <;> exact hb'
 
 end Qib.Compact
